@@ -140,6 +140,48 @@ pub fn c14_object(a: &dyn Aml, raw: Option<&[u8]>, reference: &[u8], what: K, cx
             Err(e) => cx.fail(P14, "sink_independent", format!("{} refused to serialise into sink kind {}: {:?}", what.name(), w, e)),
         }
     }
+    // sinks overriding only some of the optional entry points (one drawn per object)
+    {
+        let pick = mix(reference.len() as u64, sum8(reference) as u64 ^ (what as u64) << 8) % 6;
+        cx.cover("c14.partial_override_sinks", pick);
+        let r = catch(|| match pick {
+            0 => {
+                let mut k = OnlyVec::default();
+                a.to_aml_bytes(&mut k);
+                k.0
+            }
+            1 => {
+                let mut k = OnlyWord::default();
+                a.to_aml_bytes(&mut k);
+                k.0
+            }
+            2 => {
+                let mut k = OnlyDword::default();
+                a.to_aml_bytes(&mut k);
+                k.0
+            }
+            3 => {
+                let mut k = OnlyQword::default();
+                a.to_aml_bytes(&mut k);
+                k.0
+            }
+            4 => {
+                let mut k = WordQword::default();
+                a.to_aml_bytes(&mut k);
+                k.0
+            }
+            _ => {
+                let mut k = VecDword::default();
+                a.to_aml_bytes(&mut k);
+                k.0
+            }
+        });
+        match r {
+            Ok(b) if b == reference => {}
+            Ok(b) => cx.fail(P14, "sink_independent", format!("{} delivered through a sink overriding only some entry points (variant {}) differs from the reference stream (len {} vs {})", what.name(), pick, b.len(), reference.len())),
+            Err(e) => cx.fail(P14, "sink_independent", format!("{} refused to serialise into a partially overriding sink: {:?}", what.name(), e)),
+        }
+    }
     // repeated serialisation into the same kind of sink
     if let (Ok(b1), Ok(b2)) = (catch(|| to_vec(a)), catch(|| to_vec(a))) {
         if b1 != b2 {
@@ -1771,6 +1813,8 @@ pub fn execute(root: &Op, props: u32, stats_on: bool) -> RunResult {
             seen_kinds |= 1u64 << ((op.k as u64) % 64);
         }
         let (len1, cnt1) = subj.sizes();
+        // abstract state reached: (subject, entry-count bucket, byte-length bucket, last op kind, refused?)
+        cx.cover("abstract_states", (root.k as u64) << 40 | bucket(cnt1) << 32 | bucket(len1) << 24 | (op.k as u64) << 8 | ap.refused as u64);
         let carry = carry_class(len0, len1).max(carry_class(cnt0, cnt1));
         if carry >= 1 {
             cx.probe("carry.byte1");
@@ -1808,6 +1852,18 @@ pub fn execute(root: &Op, props: u32, stats_on: bool) -> RunResult {
     }
     let _ = seen_kinds;
     RunResult { viol: cx.viol, st: cx.st, digest: cx.digest }
+}
+
+fn bucket(x: u64) -> u64 {
+    // 0, 1, 2, 3-4, 5-8, ... (logarithmic), with the byte boundaries 255/256 and 65535/65536 kept apart
+    match x {
+        0..=2 => x,
+        255 => 40,
+        256 => 41,
+        65_535 => 42,
+        65_536 => 43,
+        _ => 3 + (64 - (x - 1).leading_zeros() as u64),
+    }
 }
 
 fn first_prop(props: u32) -> u32 {
